@@ -171,6 +171,10 @@ def job_list(ctx):
     for sc in scen:
         if any(st in ("J1", "N2", "A1", "H3", "I1") for st, _ in sc) and (len(sc) == 1 or all(l == 12 for _, l in sc)):
             jobs.append((sc, 3, "default_ont", (), 0, ctx.scratch))
+    # the annotation with shuffled record order (annotated=4)
+    for sc in scen:
+        if len(sc) == 1 or (not quick and all(l == 12 for _, l in sc)):
+            jobs.append((sc, 4, "default_ont", (), 0, ctx.scratch))
     # report_canonical levels / novel unspliced
     for sc in scen:
         if len(sc) <= (1 if quick else 2):
